@@ -66,6 +66,37 @@ fn unique_nested_input_object_fields(diagnostics: &mut DiagnosticList, value: &a
     }
 }
 
+/// All Variable Uses Defined, for variables nested in a literal given for a custom scalar
+fn undefined_nested_variables(
+    diagnostics: &mut DiagnosticList,
+    value: &Node<ast::Value>,
+    var_defs: &[Node<ast::VariableDefinition>],
+) {
+    match &**value {
+        ast::Value::Variable(var_name) => {
+            if !var_defs.iter().any(|v| v.name == *var_name) {
+                diagnostics.push(
+                    value.location(),
+                    DiagnosticData::UndefinedVariable {
+                        name: var_name.clone(),
+                    },
+                );
+            }
+        }
+        ast::Value::Object(obj) => {
+            for (_, value) in obj {
+                undefined_nested_variables(diagnostics, value, var_defs);
+            }
+        }
+        ast::Value::List(list) => {
+            for value in list {
+                undefined_nested_variables(diagnostics, value, var_defs);
+            }
+        }
+        _ => {}
+    }
+}
+
 pub(crate) fn value_of_correct_type(
     diagnostics: &mut DiagnosticList,
     schema: &crate::Schema,
@@ -229,7 +260,13 @@ pub(crate) fn value_of_correct_type(
             if !accepts_list {
                 unsupported_type(diagnostics, arg_value, ty)
             } else {
-                let item_type = ty.same_location(ty.item_type().clone());
+                let item_type = if ty.is_list() {
+                    ty.same_location(ty.item_type().clone())
+                } else {
+                    // A list literal given for a custom scalar: any item is valid,
+                    // including `null` when the scalar type itself is non-null
+                    ty.same_location(ast::Type::Named(ty.inner_named_type().clone()))
+                };
                 if type_definition.is_input_type() {
                     for v in li {
                         value_of_correct_type(diagnostics, schema, &item_type, v, var_defs);
@@ -243,8 +280,10 @@ pub(crate) fn value_of_correct_type(
             schema::ExtendedType::Scalar(scalar) if !scalar.is_built_in() => {
                 // Any value is valid for a custom scalar,
                 // but object literals nested in it still need unique field names
+                // and variables nested in it still need to be defined
                 for (_, value) in obj {
                     unique_nested_input_object_fields(diagnostics, value);
+                    undefined_nested_variables(diagnostics, value, var_defs);
                 }
             }
             schema::ExtendedType::InputObject(input_obj) => {
